@@ -144,6 +144,18 @@ func (s *Session) verifyFunc(fn *ssa.Function, c *Contract) (vc *FnVC, err error
 		vc.note("function has no reachable return")
 		return vc, nil
 	}
+	// a call-site clause that matches no call in the body is a stale (or misspelt) contract, never a silent pass
+	for _, cr := range c.Callsites {
+		hit := false
+		for k := range vc.coveredCallsites {
+			if strings.HasPrefix(k, cr.Callee+"@") {
+				hit = true
+			}
+		}
+		if !hit {
+			return vc, fmt.Errorf("%s: callsite clause for %s matches no call in the function body", c.Key, cr.Callee)
+		}
+	}
 	// postconditions
 	post := exitSt.clone()
 	env := fr.specEnv(post, fr.oldState)
